@@ -82,6 +82,15 @@ type Step struct {
 	Kind     string     `json:"kind"`
 	Via      string     `json:"via"`
 	Fresh    bool       `json:"fresh"` // build a new Config from the named options for this call
+	Gs       []*ConcG   `json:"gs"`       // conc: goroutines
+	Schedule []string   `json:"schedule"` // conc: goroutine to release at each yield point
+}
+
+// ConcG is one goroutine of a "conc" step: a test (fake test object) executing calls.
+type ConcG struct {
+	G     string  `json:"g"`
+	Test  string  `json:"test"`
+	Steps []*Step `json:"steps"`
 }
 
 type Val struct {
@@ -287,6 +296,9 @@ type Interp struct {
 	RunSub func(t *testing.T, name string, f func(t *testing.T)) bool
 	// Call shapes implemented in _test.go files (C11).
 	Shapes map[string]func(call func())
+	// Spawn starts a goroutine whose root frame lives in a _test.go file (as the goroutines of
+	// parallel tests do), provided by main_test.go.
+	Spawn func(f func())
 }
 
 func Load() (*Interp, error) {
@@ -374,6 +386,8 @@ func (in *Interp) runHist(h *Hist) {
 		case "begin":
 			live[st.Name] = &recT{name: st.Name}
 			in.tr.emit(&Event{Ev: "begin", H: h.H, ID: st.ID, T: st.Name})
+		case "conc":
+			in.runConc(h, st)
 		case "end":
 			if t := live[st.Name]; t != nil {
 				t.runCleanups()
